@@ -31,7 +31,7 @@ ASSUMPTIONS = [
 DECIDING = ['bp.app.bpsec:CoseContext.apply_bcb', 'bp.app.bpsec:CoseContext.verify_bcb', 'bp.app.bpsec:CoseContext.verify_bcb_target',
             'bp.app.bpsec:CoseSecOpCtx.get_external_aad', 'bp.app.bpsec:CoseSecOpCtx.decode_msg']
 REQUIRED_OBS = ['wire_ciphertext_confirmed', 'reencrypt_equal', 'plaintext_recovered', 'empty_plaintexts', 'kw_bundles',
-                'mutants_expect_reject', 'mutants_expect_accept', 'verify_fail_seen', 'wrong_key_runs', 'multi_target_bcbs', 'multi_recipient_recovered', 'admin_reports_confirmed', 'admin_reports_recovered', 'typed_target_runs', 'adjacent_bcb_runs']
+                'mutants_expect_reject', 'mutants_expect_accept', 'verify_fail_seen', 'wrong_key_runs', 'multi_target_bcbs', 'multi_recipient_recovered', 'admin_reports_confirmed', 'admin_reports_recovered', 'typed_target_runs', 'adjacent_bcb_runs', 'handed_bundles_reencoded']
 
 KINDS = ['enc0-256', 'enc0-128', 'enc-kw']
 LENGTHS = [0, 1, 2, 15, 16, 17, 31, 32, 33, 64, 100, 255, 256, 300, 1000]
@@ -355,6 +355,17 @@ def run_case(case):
                             problems.append(('not-recovered', 'the accepted confidentiality block is still present next to the plaintext'))
                         else:
                             obs['plaintext_recovered'] += 1
+                            # the accepted bundle as the application gets it when it encodes / reloads what it was handed
+                            try:
+                                handed = bytes(dst.observed_ctrs[dst.observed.index(rec)].bundle)
+                                hpay = bpv7.payload_of(bpv7.decode(handed, strict=False)[0])
+                                obs['handed_bundles_reencoded'] = obs.get('handed_bundles_reencoded', 0) + 1
+                                if hpay is None or hpay['data'] != plain:
+                                    problems.append(('not-recovered', 'the accepted bundle, encoded as handed to the application, carries %d octets (%s...) in the '
+                                                     'target block instead of the %d-octet plaintext' % (len(hpay['data']) if hpay else -1,
+                                                                                                        (hpay['data'] if hpay else b'').hex()[:24], len(plain))))
+                            except Exception as herr:  # pylint: disable=broad-except
+                                obs['handed_bundles_not_encodable'] = obs.get('handed_bundles_not_encodable', 0) + 1
                     else:
                         if delivered[0]['payload'] == bpv7.payload_of(bpv7.decode(data)[0])['data']:
                             obs['delivered_ciphertext_without_accept'] += 1
